@@ -78,7 +78,13 @@ class SimLock:
                 raise HarnessError("library lock contended outside a scheduled run")
             sim.lock_waits += 1
             me.blocked_on = self
-            sched.switch(None)
+            # the scheduler itself must not be traced as if it were library code
+            # (it draws from random.Random, whose module is a profiled file)
+            saved, me.in_op = me.in_op, False
+            try:
+                sched.switch(None)
+            finally:
+                me.in_op = saved
         self._owner = me
         self._count = 1
         return True
@@ -566,6 +572,17 @@ class _Sim:
 
     # file system ---------------------------------------------------------
     def sim_open(self, path, *a, **kw):
+        cl0 = self.cur
+        saved = cl0.in_op if cl0 is not None else False
+        if cl0 is not None:
+            cl0.in_op = False  # harness code is never a pre-emption point
+        try:
+            return self._sim_open(path, *a, **kw)
+        finally:
+            if cl0 is not None:
+                cl0.in_op = saved
+
+    def _sim_open(self, path, *a, **kw):
         p = os.fspath(path)
         base = os.path.basename(p)
         if self.tmpdir is None or os.path.dirname(os.path.abspath(p)) != self.tmpdir:
